@@ -306,7 +306,8 @@ theorem integrate_grid (cfg : Cfg ℚ) (heps : 0 < cfg.eps) (htol : 0 < cfg.tolE
       · rename_i n _
         have hσ : 0 < (target - s.tcur) * (target - s.tcur) := mul_self_pos.mpr hDne
         obtain ⟨news, h1, h2, _, h4, h5, h6, h7, _, h9⟩ := loop_grid cfg htol target (target - s.tcur) orc hor hcv fuel 0
-          { s with dt := initialDt cfg s target, cap := s.cap + n } []
+          { s with dt := initialDt cfg s target, cap := s.cap + n,
+                   status := if s.status == 2 ∨ s.status == 3 ∨ s.status == 4 then 0 else s.status } []
           (Or.inr ⟨hinit, hσ⟩) hinit0 hcb
         refine ⟨news, ?_, h2, ?_, h5, h6, h7, ?_⟩
         · simpa using h1
